@@ -32,6 +32,7 @@ type Profile struct {
 	Simple         bool // tables of short plain cells (every output mode can be parsed back)
 	SimpleEvery    int  // every n-th case uses Simple tables
 	OrderLimit     bool // the ORDER BY + LIMIT family: duplicate rows, every limit from 0 to one past the row count
+	Mixed          bool // a column holding values of different runtime types (Int | String from CSV, Float | String | Boolean from JSON) under the order- and equality-based operators
 	Having         bool // grouping subquery / WITH table whose aggregate columns (NULL for all-NULL groups) feed strict operators, filters and further aggregates of the enclosing query
 	ManyKeys       bool // >= 200 rows, >= 100 distinct Float keys incl. 0.0 and -0.0: GROUP BY / DISTINCT / count(DISTINCT) beyond the hashmaps' initial size
 	OuterTrig      bool // aggregates (incl. DISTINCT ones) of an enclosing query over a GROUP BY ... TRIGGER COUNTING subquery
@@ -1422,4 +1423,63 @@ func (g *Gen) GenOuterTrigTop(i int) *Top {
 	}
 	g.shape("outer aggregation over TRIGGER " + inner.Trigger)
 	return &Top{Main: outer}
+}
+
+// GenMixedTop: a column whose values have different runtime types inside one group — numbers and words in a CSV
+// column (Int | String), numbers, strings and booleans in a JSON column — under everything that orders or
+// identifies values: array_agg, array_agg(DISTINCT), count(DISTINCT), GROUP BY, SELECT DISTINCT, ORDER BY.
+// Value.Compare orders different types by type id (Int < Float < Boolean < String); no two of them are equal.
+func (g *Gen) GenMixedTop(i int) *Top {
+	r := g.R
+	json := i%2 == 1
+	t := &Table{Name: "t1.csv", Cols: []string{"k", "m"}, Types: []Kind{KStr, KStr}}
+	var pool []Val
+	if json {
+		t.Name = "t1.json"
+		pool = []Val{Float(0.5), Float(2.5), Float(-1.5), Str("abc"), Str("b"), Str(""), Str("5"), Bool(true), Bool(false), Float(7.25)}
+	} else {
+		pool = []Val{Int(5), Int(7), Int(0), Int(-3), Int(12), Str("abc"), Str("b"), Str("x1"), Str("seven"), Int(5)}
+	}
+	nrows := 7 + r.Intn(5)
+	for j := 0; j < nrows; j++ {
+		row := []Val{Str(simpleStrings[r.Intn(2)]), pool[r.Intn(len(pool))]}
+		if r.Chance(1, 6) {
+			row[1] = Null()
+		}
+		t.Rows = append(t.Rows, row)
+	}
+	// every group holds a non-negative number next to words
+	t.Rows[0] = []Val{Str("a"), pool[0]}
+	t.Rows[1] = []Val{Str("a"), pool[3+2*(i%2)]}
+	t.Rows[2] = []Val{Str("b"), pool[1]}
+	t.Rows[3] = []Val{Str("b"), Str("b")}
+	t.Rows[4] = []Val{Str("a"), Str("abc")}
+	g.Tables = []*Table{t}
+	q := &Query{From: Source{Kind: "table", Table: t.Name, Alias: "t1"}}
+	m := Col{Name: "m"}
+	switch (i / 2) % 6 {
+	case 0:
+		q.GroupBy = []Expr{Col{Name: "k"}}
+		q.Items = []Item{{E: Col{Name: "k"}, Alias: g.fresh("k")}, {Agg: "array_agg", E: m, Alias: g.fresh("g")}}
+	case 1:
+		q.GroupBy = []Expr{Col{Name: "k"}}
+		q.Items = []Item{{E: Col{Name: "k"}, Alias: g.fresh("k")}, {Agg: "array_agg", Dist: true, E: m, Alias: g.fresh("g")},
+			{Agg: "count", Dist: true, E: m, Alias: g.fresh("g")}, {Agg: "count", E: m, Alias: g.fresh("g")}}
+	case 2:
+		q.Distinct = true
+		q.Items = []Item{{E: m, Alias: g.fresh("c")}}
+	case 3:
+		q.GroupBy = []Expr{m}
+		q.Items = []Item{{E: m, Alias: g.fresh("k")}, {Agg: "count", CStar: true, E: Lit{Bool(true)}, Alias: g.fresh("g")},
+			{Agg: "array_agg", E: Col{Name: "k"}, Alias: g.fresh("g")}}
+	case 4:
+		a := g.fresh("c")
+		q.Items = []Item{{E: m, Alias: a}, {E: Col{Name: "k"}, Alias: g.fresh("c")}}
+		q.OrderBy = []OrderKey{{E: Col{Name: a}, Desc: r.Bool()}}
+	default:
+		q.Items = []Item{{Agg: "array_agg", E: m, Alias: g.fresh("g")}, {Agg: "array_agg", Dist: true, E: m, Alias: g.fresh("g")},
+			{Agg: "count", Dist: true, E: m, Alias: g.fresh("g")}}
+	}
+	g.shape(fmt.Sprintf("mixed runtime types shape %d json=%v", (i/2)%6, json))
+	return &Top{Main: q}
 }
